@@ -149,7 +149,7 @@ class Check:
             name, n, depth, len(invariants), len(properties), tl["wall_s"]))
 
     def gen(self, name, base, consts, replayer, rargs, cfg=("INIT GInit", "NEXT GNext", "INVARIANT Emit", "CONSTRAINT Constr"),
-            workers=12, timeout=900, need=()):
+            workers=12, timeout=900, need=(), spec_flags=True):
         if self.skip(name):
             return {"distinct": 0, "generated": 0, "depth": 0, "timed_out": False, "ok": True, "wall_s": 0}, {}
         tl, summ = core.gen_replay("%s_%s" % (self.prop, name), base, consts, list(cfg), replayer, rargs,
@@ -179,6 +179,12 @@ class Check:
             self.violation(name, m["what"], dict(m, replayer=replayer, rargs=[str(a) for a in rargs]))
         if summ.get("n_mismatch", 0) > len(summ.get("mismatches", [])):
             st["mismatches_not_listed"] = summ["n_mismatch"] - len(summ["mismatches"])
+        # histories the code reproduces exactly while the SPECIFICATION's own state (named deviation switched on in the config)
+        # breaks a clause: TLC has recognised an occurrence of a listed known finding
+        if summ.get("n_spec_flags"):
+            st["spec_flagged_histories"] = summ["n_spec_flags"]
+        for m in (summ.get("spec_flags", []) if spec_flags else []):
+            self.violation(name, m["what"], dict(m, replayer=replayer, rargs=[str(a) for a in rargs]))
         return tl, summ
 
     def aux(self, name, cmd, kind, env=None, payload_extra=None, timeout=900):
@@ -249,6 +255,13 @@ class Check:
                     if ndiv == 1:
                         log("[%s] NOTE: BookImpl.tla no longer matches the code's internals (%s at event %s); no property is affected" % (
                             name, v["impl_diverged"].get("why"), v["impl_diverged"].get("at")))
+                if v.get("spec_flag"):
+                    # the specification ran with a named deviation switched on (FollowF3), went on explaining the trace, and its
+                    # OWN state broke a clause: an occurrence of a listed known finding, recognised by TLC
+                    sf = v["spec_flag"]
+                    self.violation(name, "the specification with FollowF3 = TRUE explains the recorded trace, and after event %s its own state breaks %s" % (sf.get("at"), sf.get("clause")),
+                                   {"kind": "trace", "spec_flag": sf.get("flag"), "trace_spec": trace_spec, "recorder": recorder, "seed": seed, "profile": profile,
+                                    "history": history_upto(out, sf.get("at"))})
                 if not v["accepted"]:
                     nrej += 1
                     rj = v["reject"] or {}
